@@ -96,20 +96,25 @@ def _empty_inits(fn):
 
 def reference_facts(tree, modname):
     """facts recorded from the reference tree (tools/gen_canon.py)"""
-    funcs, comps, digests, loopbuilt, ncomps = [], {}, {}, {}, {}
+    _strip_docstrings(tree)
+    funcs, comps, digests, loopbuilt, ncomps, compbuilt = [], {}, {}, {}, {}, {}
     for q, fn in _all_functions(tree, modname):
         funcs.append(q)
         digests[q] = fn_digest(fn)
         lb = sorted(_empty_inits(fn))
         if lb:
             loopbuilt[q] = lb
+        cb = sorted({n.targets[0].id for n in ast.walk(fn) if isinstance(n, ast.Assign) and len(n.targets) == 1 and
+                     isinstance(n.targets[0], ast.Name) and isinstance(n.value, ast.ListComp)})
+        if cb:
+            compbuilt[q] = cb
         ncomps[q] = sum(1 for n in ast.walk(fn)
                         if isinstance(n, (ast.ListComp, ast.SetComp, ast.DictComp, ast.GeneratorExp)))
         fps = sorted({comp_fingerprint(n) for n in ast.walk(fn)
                       if isinstance(n, (ast.ListComp, ast.SetComp, ast.DictComp, ast.GeneratorExp))})
         if fps:
             comps[q] = fps
-    return {"functions": funcs, "comps": comps, "digests": digests, "loopbuilt": loopbuilt, "ncomps": ncomps}
+    return {"functions": funcs, "comps": comps, "digests": digests, "loopbuilt": loopbuilt, "ncomps": ncomps, "compbuilt": compbuilt}
 
 
 # ---------------------------------------------------------------------------------------------- helpers
@@ -314,7 +319,7 @@ class _Helper:
             if len(self.body) == 1 and isinstance(self.body[0], ast.Return) and self.body[0].value is not None:
                 self.expr = self.body[0].value
             else:
-                self.expr = _bool_search(self.body)
+                self.expr = _bool_search(self.body) or _let_expression(self.body, set(self.params))
 
     def _is_self_call(self, call):
         f = call.func
@@ -390,6 +395,31 @@ def _bool_search(body):
     for _k, cond, k in reversed(steps):
         e = _ite(k, cond, e)
     return e
+
+
+def _let_expression(body, params):
+    """`x = E1; y = E2(x); return E3(x, y)` with every local bound once (and read once, or bound to something pure) is
+    the expression E3 with the locals substituted"""
+    if len(body) < 2 or not isinstance(body[-1], ast.Return) or body[-1].value is None:
+        return None
+    env = {}
+    for s in body[:-1]:
+        if not (isinstance(s, ast.Assign) and len(s.targets) == 1 and isinstance(s.targets[0], ast.Name)):
+            return None
+        nm = s.targets[0].id
+        if nm in env or nm in params:
+            return None
+        val = _Subst(env).visit(_clone(s.value))
+        env[nm] = val
+    ret = body[-1].value
+    for nm, val in env.items():
+        uses = sum(1 for n in ast.walk(ret) if isinstance(n, ast.Name) and n.id == nm)
+        uses += sum(1 for v in env.values() for n in ast.walk(v) if isinstance(n, ast.Name) and n.id == nm)
+        if uses > 1 and not _pure(val, allow_call=False):
+            return None
+        if uses == 0 and any(isinstance(x, ast.Call) for x in ast.walk(val)):
+            return None
+    return _Subst(env).visit(_clone(ret))
 
 
 def _tail_returns_only(body):
@@ -619,6 +649,57 @@ def _inline_into(fn, cls, h, stats):
     return did
 
 
+def _hoist_nested_call(s, fn, cls, h):
+    """`x = list(H(a))` with H not expressible as an expression -> [`_t = H(a)`, `x = list(_t)`] (the call is evaluated
+    unconditionally and first: not under a lambda, comprehension, conditional expression or short-circuit operator)"""
+    if h.expr is not None:
+        return None
+    if isinstance(s, (ast.Assign, ast.AugAssign, ast.Return, ast.Expr)):
+        root = s.value
+    elif isinstance(s, ast.If):
+        root = s.test
+    else:
+        return None
+    if root is None or (isinstance(root, ast.Call) and h.matches(root, cls) is not None and not isinstance(s, ast.If)):
+        return None
+
+    found = []
+
+    def walk(e, conditional):
+        if isinstance(e, (ast.Lambda, ast.ListComp, ast.SetComp, ast.DictComp, ast.GeneratorExp)):
+            return
+        if isinstance(e, ast.Call) and h.matches(e, cls) is not None:
+            found.append((e, conditional))
+        for f_, v in ast.iter_fields(e):
+            vs = v if isinstance(v, list) else [v]
+            for i, c in enumerate(vs):
+                if isinstance(c, ast.AST):
+                    cond = conditional
+                    if isinstance(e, ast.IfExp) and f_ in ("body", "orelse"):
+                        cond = True
+                    if isinstance(e, ast.BoolOp) and f_ == "values" and i > 0:
+                        cond = True
+                    walk(c, cond)
+    walk(root, False)
+    if len(found) != 1 or found[0][1]:
+        return None
+    call = found[0][0]
+    tmp = _fresh("_hsa_call", _names_used(fn))
+    pre = ast.copy_location(ast.Assign(targets=[ast.Name(id=tmp, ctx=ast.Store())], value=call), s)
+
+    class R(ast.NodeTransformer):
+        def visit_Call(self, node):
+            if node is call:
+                return ast.copy_location(ast.Name(id=tmp, ctx=ast.Load()), node)
+            self.generic_visit(node)
+            return node
+    if isinstance(s, ast.If):
+        s.test = R().visit(s.test)
+    else:
+        s.value = R().visit(s.value)
+    return [pre, s]
+
+
 def _inline_stmt_sites(owner, fn, cls, h, stats):
     did = False
     for name in ("body", "orelse", "finalbody"):
@@ -628,6 +709,10 @@ def _inline_stmt_sites(owner, fn, cls, h, stats):
         i = 0
         while i < len(blk):
             s = blk[i]
+            hoisted = _hoist_nested_call(s, fn, cls, h)
+            if hoisted is not None:
+                blk[i:i + 1] = hoisted
+                s = blk[i]
             rep = _try_stmt(s, fn, cls, h)
             if rep is not None:
                 for r in rep:
@@ -652,9 +737,12 @@ def _try_stmt(s, fn, cls, h):
         call, ctx = s.value, "return"
     elif isinstance(s, ast.Expr) and isinstance(s.value, ast.Call):
         call, ctx = s.value, "expr"
-    elif isinstance(s, ast.Assign) and len(s.targets) == 1 and isinstance(s.targets[0], ast.Name) and \
-            isinstance(s.value, ast.Call):
-        call, ctx, target = s.value, "assign", s.targets[0].id
+    elif isinstance(s, ast.Assign) and len(s.targets) == 1 and isinstance(s.value, ast.Call) and (
+            isinstance(s.targets[0], (ast.Name, ast.Attribute, ast.Subscript)) or
+            (isinstance(s.targets[0], ast.Tuple) and all(isinstance(e, ast.Name) for e in s.targets[0].elts))):
+        call, ctx = s.value, "assign"
+        target = s.targets[0].id if isinstance(s.targets[0], ast.Name) else None
+        target_node = s.targets[0]
     if call is None:
         return None
     bound = h.matches(call, cls)
@@ -662,7 +750,14 @@ def _try_stmt(s, fn, cls, h):
         return None          # expression helpers are substituted by the expression pass
     if any(any(isinstance(n, ast.Call) and h.matches(n, cls) is not None for n in ast.walk(a)) for a in bound.values()):
         return None
-    prefix, body = _prepare_body(h, bound, fn, keep=(target,) if target else ())
+    keep = (target,) if target else ()
+    if ctx == "assign" and isinstance(target_node, ast.Tuple):
+        keep = tuple(e.id for e in target_node.elts)
+        # every value return of the helper must be a tuple of that arity
+        for n in ast.walk(ast.Module(body=h.body, type_ignores=[])):
+            if isinstance(n, ast.Return) and not (isinstance(n.value, ast.Tuple) and len(n.value.elts) == len(keep)):
+                return None
+    prefix, body = _prepare_body(h, bound, fn, keep=keep)
     has_value_return = any(isinstance(n, ast.Return) and n.value is not None for b in body for n in ast.walk(b))
     if ctx == "return":
         if not _always_returns(body):
@@ -677,9 +772,12 @@ def _try_stmt(s, fn, cls, h):
         return prefix + (_replace_returns(body2, lambda v, r: []) or [ast.Pass()])
     # assignment
     def assign(v, r):
-        if isinstance(v, ast.Name) and v.id == target:
+        if target is not None and isinstance(v, ast.Name) and v.id == target:
             return []
-        return [ast.copy_location(ast.Assign(targets=[ast.Name(id=target, ctx=ast.Store())],
+        if isinstance(target_node, ast.Tuple) and isinstance(v, ast.Tuple) and \
+                [ast.unparse(e) for e in v.elts] == [e.id for e in target_node.elts]:
+            return []
+        return [ast.copy_location(ast.Assign(targets=[_clone(target_node)],
                                              value=v if v is not None else ast.Constant(value=None)), r)]
     body2 = _early_to_else(body)
     if _tail_returns_only(body2):
@@ -692,6 +790,8 @@ def _try_stmt(s, fn, cls, h):
         init = assign(ret.value, ret)
         if not init and ret.value is not None:
             init = []
+        if target is None:
+            return None
         loop.body = _RetToBreak(target).generic_block(loop.body)
         # reference idiom: default first, then the loop that overwrites it and breaks
         return prefix + pre + init + [loop]
@@ -781,6 +881,23 @@ def _desugar_comps(fn, ref_fps, stats, loopbuilt=frozenset(), ref_ncomps=0):
             leaf = ast.If(test=test, body=[ast.Return(value=ast.Constant(value=not is_all))], orelse=[])
             return loops(comp, ast.copy_location(leaf, s), s) + \
                 [ast.copy_location(ast.Return(value=ast.Constant(value=is_all)), s)]
+        if surplus and isinstance(s, ast.Assign) and len(s.targets) == 1 and isinstance(s.targets[0], ast.Name) and \
+                isinstance(s.value, ast.Call) and isinstance(s.value.func, ast.Name) and s.value.func.id == "next" and \
+                len(s.value.args) == 2 and isinstance(s.value.args[0], ast.GeneratorExp) and \
+                isinstance(s.value.args[1], (ast.Constant, ast.Name)) and is_new(s.value.args[0]) and \
+                not collides(s.value.args[0], s) and len(s.value.args[0].generators) == 1:
+            # x = next((E for T in IT if C), D)  ->  x = D; for T in IT: if C: x = E; break
+            comp = s.value.args[0]
+            tgt = s.targets[0].id
+            init = ast.copy_location(ast.Assign(targets=[ast.Name(id=tgt, ctx=ast.Store())], value=s.value.args[1]), s)
+            hit = [ast.copy_location(ast.Assign(targets=[ast.Name(id=tgt, ctx=ast.Store())], value=comp.elt), s),
+                   ast.copy_location(ast.Break(), s)]
+            body = hit
+            for c in reversed(comp.generators[0].ifs):
+                body = [ast.copy_location(ast.If(test=c, body=body, orelse=[]), s)]
+            loop = ast.copy_location(ast.For(target=_store(comp.generators[0].target), iter=comp.generators[0].iter,
+                                             body=body, orelse=[]), s)
+            return [init, loop]
         if isinstance(s, ast.Assign) and len(s.targets) == 1 and isinstance(s.targets[0], ast.Name):
             name, val = s.targets[0].id, s.value
             if name not in loopbuilt:
@@ -869,6 +986,73 @@ def _desugar_comps(fn, ref_fps, stats, loopbuilt=frozenset(), ref_ncomps=0):
     walk_block(fn)
 
 
+def _resugar_loops(fn, compbuilt, loopbuilt, stats):
+    """N3': `x = []` directly followed by a loop whose only effect is one `x.append(E)` under tests (`if c: continue`,
+    nested ifs) becomes `x = [E for .. if ..]` again where the reference built x with a comprehension"""
+    def cond_expr(t, pol):
+        if pol:
+            return t
+        if isinstance(t, ast.UnaryOp) and isinstance(t.op, ast.Not):
+            return t.operand
+        return ast.UnaryOp(op=ast.Not(), operand=t)
+
+    def simple_body(stmts, x):
+        """-> list of (append call) if the statements are only ifs / continue / one append to x"""
+        apps = []
+        for s in stmts:
+            if isinstance(s, ast.Continue):
+                continue
+            if isinstance(s, ast.If):
+                a = simple_body(s.body, x)
+                b = simple_body(s.orelse, x)
+                if a is None or b is None:
+                    return None
+                apps += a + b
+            elif isinstance(s, ast.Expr) and isinstance(s.value, ast.Call) and isinstance(s.value.func, ast.Attribute) and \
+                    s.value.func.attr == "append" and isinstance(s.value.func.value, ast.Name) and \
+                    s.value.func.value.id == x and len(s.value.args) == 1:
+                apps.append(s.value)
+            else:
+                return None
+        return apps
+
+    def walk_block(owner):
+        for nm in ("body", "orelse", "finalbody"):
+            blk = getattr(owner, nm, None)
+            if not (isinstance(blk, list) and blk and isinstance(blk[0], ast.stmt)):
+                continue
+            i = 0
+            while i < len(blk) - 1:
+                s, nxt = blk[i], blk[i + 1]
+                if isinstance(s, ast.Assign) and len(s.targets) == 1 and isinstance(s.targets[0], ast.Name) and \
+                        isinstance(s.value, ast.List) and not s.value.elts and isinstance(nxt, ast.For) and not nxt.orelse:
+                    x = s.targets[0].id
+                    if x in compbuilt and x not in loopbuilt:
+                        apps = simple_body(nxt.body, x)
+                        if apps is not None and len(apps) == 1:
+                            _set_parents(fn)
+                            from .astutil import flat_guards
+                            from .astutil import guards
+                            tests = sorted(guards(apps[0], stop=nxt), key=lambda tp_: (tp_[0].lineno, tp_[0].col_offset))
+                            conj = [cond_expr(t, p) for t, p in tests]
+                            ifs = [conj[0]] if len(conj) == 1 else \
+                                ([ast.BoolOp(op=ast.And(), values=conj)] if conj else [])
+                            comp = ast.ListComp(elt=apps[0].args[0], generators=[ast.comprehension(
+                                target=nxt.target, iter=nxt.iter, ifs=ifs, is_async=0)])
+                            new = ast.copy_location(ast.Assign(targets=[ast.Name(id=x, ctx=ast.Store())], value=comp), s)
+                            _loc(new, s)
+                            blk[i:i + 2] = [new]
+                            stats["resugared_loops"] = stats.get("resugared_loops", 0) + 1
+                            continue
+                if not isinstance(s, (ast.FunctionDef, ast.AsyncFunctionDef, ast.ClassDef)):
+                    walk_block(s)
+                i += 1
+            for s in blk[-1:]:
+                if not isinstance(s, (ast.FunctionDef, ast.AsyncFunctionDef, ast.ClassDef)):
+                    walk_block(s)
+    walk_block(fn)
+
+
 # ---------------------------------------------------------------------------------------------- N2 new locals
 
 def _set_parents(fn):
@@ -877,9 +1061,24 @@ def _set_parents(fn):
             c._parent = n
 
 
+_PURE_FUNCS = {"os.path.join", "str", "len", "isinstance", "type", "getattr", "hasattr", "tuple", "frozenset", "repr",
+               "int", "bool", "min", "max", "abs"}
+_PURE_METHODS = {"startswith", "endswith", "lower", "upper", "strip", "split", "format", "get_type"}
+
+
+def _pure_call(c):
+    """calls whose result depends only on their operands and that change nothing (may be evaluated again)"""
+    f = c.func
+    if ast.unparse(f) in _PURE_FUNCS:
+        return True
+    if isinstance(f, ast.Attribute) and (f.attr in _PURE_METHODS or f.attr.startswith(("is_", "has_"))):
+        return True
+    return False
+
+
 def _pure(e, allow_call):
     for n in ast.walk(e):
-        if isinstance(n, (ast.Call,)) and not allow_call:
+        if isinstance(n, (ast.Call,)) and not allow_call and not _pure_call(n):
             return False
         if isinstance(n, (ast.Lambda, ast.ListComp, ast.SetComp, ast.DictComp, ast.GeneratorExp, ast.Yield,
                           ast.YieldFrom, ast.Await, ast.NamedExpr, ast.Starred)):
@@ -983,7 +1182,7 @@ def _inline_one_local(fn, g, nm, stats):
                     stored_paths.add(ast.unparse(x))
     for st, us in by_def.values():
         E = st.value
-        has_call = any(isinstance(x, ast.Call) for x in ast.walk(E))
+        has_call = any(isinstance(x, ast.Call) and not _pure_call(x) for x in ast.walk(E))
         if not _pure(E, allow_call=len(us) == 1) or nm in _names_used(E):
             return False
         try:
@@ -1114,10 +1313,20 @@ def _block_of(st):
 
 # ---------------------------------------------------------------------------------------------- entry point
 
+def _strip_docstrings(tree):
+    """docstrings and type annotations of parameters / results are not behaviour: the analysed copy has none"""
+    for n in ast.walk(tree):
+        if isinstance(n, (ast.FunctionDef, ast.AsyncFunctionDef, ast.ClassDef)):
+            body = _strip_doc(n.body)
+            if len(body) != len(n.body):
+                n.body[:] = body or [ast.copy_location(ast.Pass(), n.body[0])]
+
+
 def apply(modname, tree):
     stats = {}
     if os.environ.get("HSA_NO_NORMALIZE") or os.environ.get("HSA_NO_CANON"):
         return stats
+    _strip_docstrings(tree)
     table = canon._load()
     ref = table.get("__ref__", {}).get(modname)
     if not ref:
@@ -1134,6 +1343,8 @@ def apply(modname, tree):
             continue          # new function (analysed as written) / unchanged function (nothing to undo)
         _desugar_comps(fn, set(ref.get("comps", {}).get(q, [])), stats,
                        loopbuilt=frozenset(ref.get("loopbuilt", {}).get(q, [])), ref_ncomps=ref.get("ncomps", {}).get(q, 0))
+        _resugar_loops(fn, frozenset(ref.get("compbuilt", {}).get(q, [])),
+                       frozenset(ref.get("loopbuilt", {}).get(q, [])), stats)
         _inline_locals(fn, q, ref_locals, stats)
     ast.fix_missing_locations(tree)
     return stats
